@@ -60,7 +60,12 @@ def main():
     for m in ms:
         t0 = time.time()
         dst = sync_copy()
-        apply(dst, m)
+        try:
+            apply(dst, m)
+        except RuntimeError as e:
+            print("FAIL %-8s %-40s %s" % (m["prop"], m["id"], e))
+            fails += 1
+            continue
         env = dict(os.environ, CKB_VERIF_REPO=dst, CKB_VERIF_EVIDENCE_DIR=os.path.join(SCRATCH, "evidence"))
         r = subprocess.run([os.path.join(V, "check"), m["prop"]], capture_output=True, text=True, env=env)
         keys = re.findall(r"^REPORT (\S+):", r.stdout, re.M)
